@@ -1,4 +1,5 @@
 import Vinegar.Lemmas.YamlFuel
+import Vinegar.Spec.Matcher
 /-
 C11 — the YAML target source compiles the documented targeting/include/merge semantics.
 
@@ -556,5 +557,48 @@ example : (match compile {} 5 d17Top d17Tree with | .ok m => m.isEmpty | .error 
 /-- the pinned implementation raised `ValueError` here (D17): rejected by the checker -/
 example : c11Check {} 5 d17Top d17Tree none = false := by decide
 example : c11Check {} 5 d17Top d17Tree (some []) = true := by decide
+
+/-! ### target expressions: the concrete reading of glob terms used to evaluate the top file's expressions
+independently of the real matcher (`Matcher.evalConcrete`, driver op `matcher.eval`) -/
+section Glob
+open Vinegar.Matcher
+
+
+/-- `*` alone matches everything -/
+theorem globMatch_star : ∀ (s : Str), globMatch ['*'] s = true
+  | [] => by simp [globMatch]
+  | _ :: s => by simp [globMatch, globMatch_star s]
+
+/-- a pattern without `*` and `?` matches exactly itself -/
+theorem globMatch_plain : ∀ (p s : Str), (∀ c ∈ p, c ≠ '*' ∧ c ≠ '?') → globMatch p s = decide (p = s)
+  | [], [], _ => by simp [globMatch]
+  | [], _ :: _, _ => by simp [globMatch]
+  | c :: p, [], h => by
+    have := h c (by simp)
+    simp [globMatch, this.1]
+  | c :: p, d :: s, h => by
+    have hc := h c (by simp)
+    have ih := globMatch_plain p s (fun x hx => h x (by simp [hx]))
+    simp only [globMatch, hc.1, if_false, hc.2, decide_false, Bool.false_or, ih]
+    by_cases hcd : c = d <;> simp [hcd]
+
+/-- `prefix*` matches exactly the strings that start with the prefix -/
+theorem globMatch_prefix_star : ∀ (p s : Str), (∀ c ∈ p, c ≠ '*' ∧ c ≠ '?') →
+    globMatch (p ++ ['*']) s = p.isPrefixOf s
+  | [], s, _ => by simpa using globMatch_star s
+  | c :: p, [], h => by
+    have := h c (by simp)
+    simp [globMatch, this.1]
+  | c :: p, d :: s, h => by
+    have hc := h c (by simp)
+    have ih := globMatch_prefix_star p s (fun x hx => h x (by simp [hx]))
+    simp only [List.cons_append, globMatch, hc.1, if_false, hc.2, decide_false, Bool.false_or, ih,
+      List.isPrefixOf]
+    by_cases hcd : c = d <;> simp [hcd]
+
+example : globMatch "web-*".toList "web-1".toList = true ∧ globMatch "web-*".toList "db-1".toList = false
+    ∧ globMatch "s?".toList "s1".toList = true ∧ globMatch "*a*b".toList "xaybb".toList = true := by
+  simp [globMatch]
+end Glob
 
 end Vinegar.C11
